@@ -47,6 +47,13 @@ StdZone(lat, lon, setzone) ==
   ELSE <<"ok", UPS>>
 
 CentralMeridian(zone) == 6 * zone - 183
+\* central scale factor in units of 1e-9: "the central scale factor for UTM (0.9996)" / "for UPS (0.994)"
+\* (Constants.hpp), which TransverseMercator::UTM() / PolarStereographic::UPS() are documented to carry.
+\* It is the scale ON the central meridian of a transverse Mercator projection (every latitude) and AT the
+\* pole of a polar stereographic one.
+K0e9(utmp) == IF utmp THEN 999600000 ELSE 994000000
+\* metres: "shift necessary to align north and south halves of a UTM zone (10^7)" (UTMShift)
+UTMShiftKm == 10000
 LatBad(lat) == lat[1] > 90 \/ (lat[1] = 90 /\ lat[2] > 0) \/ lat[1] < -90 \/ (lat[1] = -90 /\ lat[2] < 0)
 Northp(lat) == lat[1] > 0 \/ (lat[1] = 0 /\ lat[2] >= 0)      \* +0 counts as north
 
@@ -89,6 +96,23 @@ Reverse(zone, northp, x, y, mgrs) ==
   IF zone = INVALID THEN <<"nan">>
   ELSE IF zone < 0 \/ zone > 60 THEN <<"throw">>
   ELSE IF InRect(zone # UPS, northp, mgrs, x, y) THEN <<"ok">> ELSE <<"throw">>
+
+(* ------------------------------------------------------------------------ *)
+(* Transfer(zonein, northpin, xin, yin, zoneout, northpout): the zone of the   *)
+(* output.  "zone ... equals zoneout if zoneout >= 0"; "if zoneout < MINZONE   *)
+(* then the rules given in the documentation of zonespec are applied":         *)
+(* MATCH - the coordinate already includes zone information (zonein), use      *)
+(* that; UTM / STANDARD - the rules applied to the point.                      *)
+(* Rule TransferEdge: the point is carried through geographic coordinates      *)
+(* (about 5 nm each way), so a point given on a degree line that is a zone or  *)
+(* UPS edge may come back on either side of it; the admissible set collects    *)
+(* the zones of the neighbouring positions (lat, lon are Eps numbers on the    *)
+(* integer-degree lattice).                                                    *)
+(* ------------------------------------------------------------------------ *)
+TransferZones(zin, zout, lat, lon) ==
+  IF zout = MATCH THEN {zin}
+  ELSE IF zout >= 0 \/ zout = INVALID THEN {zout}
+  ELSE {StdZone(<<lat[1], i>>, <<lon[1], j>>, zout)[2] : i \in {-1, 0, 1}, j \in {-1, 0, 1}}
 
 (* ------------------------------------------------------------------------ *)
 (* Zone strings (byte-code sequences) and EPSG codes                          *)
